@@ -144,7 +144,8 @@ class Cover(Device):
             name=f"cover.auto_stopper_{id(self)}",
             target=self.stop,
         )
-        self._auto_stop_requested: bool = False
+        # number of own up/down telegrams of `set_position()` still to come back
+        self._auto_stop_requested: int = 0
         self._periodic_update_task = Task(
             name=f"cover.periodic_update_{id(self)}",
             target=self._periodic_updater,
@@ -164,7 +165,7 @@ class Cover(Device):
     def async_remove_tasks(self) -> None:
         """Remove async tasks of device."""
         self.xknx.task_registry.remove_task(self._auto_stop_task)
-        self._auto_stop_requested = False
+        self._auto_stop_requested = 0
         self.xknx.task_registry.remove_task(self._periodic_update_task)
 
     async def set_down(self) -> None:
@@ -290,12 +291,12 @@ class Cover(Device):
         )
         self._auto_stop_task.wait_before_start = stop_in_seconds
         self.xknx.task_registry.start_task(self._auto_stop_task)
-        self._auto_stop_requested = True
+        self._auto_stop_requested += 1
 
     def _cancel_auto_stopper(self) -> None:
         """Cancel the auto stopper task."""
         self._auto_stop_task.cancel()
-        self._auto_stop_requested = False
+        self._auto_stop_requested = 0
 
     def _target_position_from_rv(self, new_target_postion: int) -> None:
         """Update the target position from RemoteValue (Callback)."""
@@ -343,24 +344,12 @@ class Cover(Device):
         # call after_update to account for travelcalculator changes
         if self.updown.process(telegram):
             if self._auto_stop_requested:
-                # Don't cancel auto stopper if we initiated the up/down telegram for it
-                self._auto_stop_requested = False
+                # our own up/down telegram of `set_position()` - travel calculator
+                # and auto stopper are already set up for the requested position
+                self._auto_stop_requested -= 1
             else:
                 self._cancel_auto_stopper()
-            if (
-                not self.is_opening()
-                and self.updown.value == RemoteValueUpDown.Direction.UP
-            ):
-                self._start_position_update(
-                    target_position=self.travelcalculator.position_open
-                )
-            elif (
-                not self.is_closing()
-                and self.updown.value == RemoteValueUpDown.Direction.DOWN
-            ):
-                self._start_position_update(
-                    target_position=self.travelcalculator.position_closed
-                )
+                self._process_updown_from_bus()
         # stop from bus
         if self.stop_.process(telegram) or self.step.process(telegram):
             self._cancel_auto_stopper()
@@ -371,6 +360,23 @@ class Cover(Device):
         self.position_target.process(telegram, always_callback=True)
         self.angle.process(telegram)
         self.locked.process(telegram)
+
+    def _process_updown_from_bus(self) -> None:
+        """Follow an up/down command that was not sent by `set_position()`."""
+        if (
+            not self.is_opening()
+            and self.updown.value == RemoteValueUpDown.Direction.UP
+        ):
+            self._start_position_update(
+                target_position=self.travelcalculator.position_open
+            )
+        elif (
+            not self.is_closing()
+            and self.updown.value == RemoteValueUpDown.Direction.DOWN
+        ):
+            self._start_position_update(
+                target_position=self.travelcalculator.position_closed
+            )
 
     def current_position(self) -> int | None:
         """Return current position of cover."""
